@@ -178,5 +178,8 @@ def tasks(tier, seed):
                         out[f"{pname}/axis{ax}/m{m}/{K.bnd_label(tuple(assign))}/e{e}m{mu}s{se}"] = Task(_task(dict(axis=ax, m=m, bnd=tuple(assign), eps=e, mu=mu, sigE=se, sigH=sh)), max_paths=256)
     # both transverse axes Bloch as well (several periodic axes in one scene)
     out["bloch/axis1/m2/BBBBBB/e1m1"] = Task(_task(dict(axis=1, m=2, bnd=(B, B, B), eps=1, mu=1, sigE=None, sigH=None)), max_paths=256)
+    # full-tensor media on a Bloch axis (the 9-component branch of update_E pads curl(H) through the boundary hook)
+    out["bloch/axis0/m2/BBooEM/e9m1"] = Task(_task(dict(axis=0, m=2, bnd=(B, (None, None), ("pec", "pmc")), eps=9, mu=1, sigE=None, sigH=None)), max_paths=256)
+    out["bloch/axis1/m3/ooBBEM/e9m3"] = Task(_task(dict(axis=1, m=3, bnd=((None, None), B, ("pec", "pmc")), eps=9, mu=3, sigE=None, sigH=None)), max_paths=256)
     out["periodic/axis2/m2/PPPPPP/e9m9"] = Task(_task(dict(axis=2, m=2, bnd=(P, P, P), eps=9, mu=9, sigE=None, sigH=None)), max_paths=256)
     return out
